@@ -929,6 +929,9 @@ class Executor:
         m = re.fullmatch(r"(?:std|core)::option::Option::<.*>::None", c)
         if m:
             return Agg([], "None", "Option")
+        m = re.fullmatch(r"(?:std|core)::option::Option::<.*?>::Some\((.*)\)", c)
+        if m:
+            return Agg([self._const(st, m.group(1))], "Some", "Option")
         m = re.fullmatch(r"([\w:]+)::(\w+)::(\w+)", c)
         if m and m.group(2) in src_enums() and m.group(3) in src_enums()[m.group(2)]:
             return Agg([], m.group(3), m.group(1) + "::" + m.group(2))
